@@ -80,9 +80,24 @@ def heightSpec {F C : Type} (E : Env F C) (lat lon : F) : F :=
   | none => E.nan
   | some (ix, iy, fx, fy) => E.interp fx fy (E.prep iy (gather E.stencil (rawSpec E.H E.pix) ix iy))
 
-/-- filling the cache reads the file with the same wrap/reflection (`CacheArea`'s loops) -/
+/-- what the area cache must contain: the file's pixel at the wrapped / reflected position (specification of `fillCode`) -/
 def fill {F C : Type} (E : Env F C) (xoff yoff : Int) : Int → Int → Nat :=
   fun j k => rawSpec E.H E.pix (let c := xoff + k; if c ≥ E.H.w then c - E.H.w else c) (yoff + j)
+
+/-- the two sequential reads per cache row of `CacheArea` **as coded**: the row `iy = yoff + j` (reflected and shifted by
+    half a turn beyond a pole: `iy1`, `iw1`), `xs1 = min(w − iw1, xsize)` pixels from column `iw1`, the remaining
+    `xsize − xs1` from column 0 of the same row.  `fillIdx` is the (column, row) of the file pixel that ends up in
+    `_data[j][k]`.  `Props.C20.fillCode_eq_fill` shows that this is `fill`. -/
+def fillIdx (H : Hdr) (xoff yoff xsize j k : Int) : Int × Int :=
+  let iy := yoff + j
+  let beyond := iy < 0 ∨ iy ≥ H.h
+  let iy1 := if beyond then (if iy < 0 then -iy else 2 * (H.h - 1) - iy) else iy
+  let iw1 := if beyond then (if xoff + H.w / 2 ≥ H.w then xoff + H.w / 2 - H.w else xoff + H.w / 2) else xoff
+  let xs1 := min (H.w - iw1) xsize
+  (if k < xs1 then iw1 + k else k - xs1, iy1)
+
+def fillCode {F C : Type} (E : Env F C) (xoff yoff xsize : Int) : Int → Int → Nat :=
+  fun j k => E.pix (fillIdx E.H xoff yoff xsize j k).1 (fillIdx E.H xoff yoff xsize j k).2
 
 def step {F C : Type} (E : Env F C) (s : St C) : Op F → St C × Option F
   | .height lat lon =>
@@ -94,7 +109,7 @@ def step {F C : Type} (E : Env F C) (s : St C) : Op F → St C × Option F
       (if s.threadsafe then s else { s with cix := ix, ciy := iy, cc := c }, some r)
   | .cacheSet xo yo xs ys =>
     if s.threadsafe then (s, none) else
-    ({ s with cache := true, xoff := xo, yoff := yo, xsize := xs, ysize := ys, data := fill E xo yo }, none)
+    ({ s with cache := true, xoff := xo, yoff := yo, xsize := xs, ysize := ys, data := fillCode E xo yo xs }, none)
   | .cacheClear => (if s.threadsafe then s else { s with cache := false }, none)
 
 /-- run a history, collecting the heights -/
@@ -130,36 +145,44 @@ def locF (f : File) (lat lon : F64) : Option (Int × Int × F64 × F64) :=
   let fx := lon * rlonres
   let fy := F64.neg lat * rlatres
   let ix := fl fx
-  let iy := min ((f.h - 1) / 2 - 1) (fl fy)
+  let iy := max (-((f.h - 1) / 2)) (min ((f.h - 1) / 2 - 1) (fl fy))   -- both poles stay in the first / last row of cells
   let fx := fx - F64.ofInt ix
   let fy := fy - F64.ofInt iy
   let iy := iy + (f.h - 1) / 2
   let ix := ix + (if ix < 0 then f.w else if ix ≥ f.w then -f.w else 0)
   some (ix, iy, fx, fy)
 
-/-- bilinear: the prepared cell data are the four corner values -/
-def prepBilinear (_iy : Int) (v : List Nat) : List F64 := v.map fun (n : Nat) => F64.ofInt (n : Int)
+/-- bilinear: the prepared cell data are the four corner values (`cast` = conversion of a pixel to the number type) -/
+def prepBilinearG {R : Type} (cast : Int → R) (_iy : Int) (v : List Nat) : List R := v.map fun (n : Nat) => cast (n : Int)
 
-def interpBilinear (offset scale : F64) (fx fy : F64) (c : List F64) : F64 :=
+/-- the bilinear formula of `Geoid::height`, generic in the number type (read at `F64` it is what the driver executes,
+    read at `ℚ` it is the exact interpolant of the theorems) -/
+def interpBilinearG {R : Type} [Add R] [Sub R] [Mul R] [OfNat R 0] [OfNat R 1] (offset scale : R) (fx fy : R) (c : List R) : R :=
   let v00 := c.getD 0 0; let v01 := c.getD 1 0; let v10 := c.getD 2 0; let v11 := c.getD 3 0
-  let a := ((1 : F64) - fx) * v00 + fx * v01
-  let b := ((1 : F64) - fx) * v10 + fx * v11
-  let cc := ((1 : F64) - fy) * a + fy * b
+  let a := ((1 : R) - fx) * v00 + fx * v01
+  let b := ((1 : R) - fx) * v10 + fx * v11
+  let cc := ((1 : R) - fy) * a + fy * b
   offset + scale * cc
 
 /-- cubic: `t[i] = (Σ_j v[j]·c3x[10 j + i]) / c0x` with the north / south / interior tables -/
-def prepCubic (h : Int) (iy : Int) (v : List Nat) : List F64 :=
+def prepCubicG {R : Type} [Add R] [Mul R] [Div R] [OfNat R 0] (cast : Int → R) (h : Int) (iy : Int) (v : List Nat) : List R :=
   let c3x := if iy = 0 then Gen.GeoidC.c3n else if iy = h - 2 then Gen.GeoidC.c3s else Gen.GeoidC.c3
   let c0x := if iy = 0 then Gen.GeoidC.c0n else if iy = h - 2 then Gen.GeoidC.c0s else Gen.GeoidC.c0
   (List.range 10).map fun i =>
-    let t := (List.range 12).foldl (fun (acc : F64) j => acc + F64.ofInt ((v.getD j 0 : Nat) : Int) * F64.ofInt (c3x.getD (10 * j + i) 0)) 0
-    t / F64.ofInt c0x
+    let t := (List.range 12).foldl (fun (acc : R) j => acc + cast ((v.getD j 0 : Nat) : Int) * cast (c3x.getD (10 * j + i) 0)) 0
+    t / cast c0x
 
-def interpCubic (offset scale : F64) (fx fy : F64) (t : List F64) : F64 :=
+/-- the cubic formula of `Geoid::height` -/
+def interpCubicG {R : Type} [Add R] [Mul R] [OfNat R 0] (offset scale : R) (fx fy : R) (t : List R) : R :=
   let g (i : Nat) := t.getD i 0
   let h := g 0 + fx * (g 1 + fx * (g 3 + fx * g 6)) +
     fy * (g 2 + fx * (g 4 + fx * g 7) + fy * (g 5 + fx * g 8 + fy * g 9))
   offset + scale * h
+
+def prepBilinear (iy : Int) (v : List Nat) : List F64 := prepBilinearG F64.ofInt iy v
+def interpBilinear (offset scale : F64) (fx fy : F64) (c : List F64) : F64 := interpBilinearG offset scale fx fy c
+def prepCubic (h : Int) (iy : Int) (v : List Nat) : List F64 := prepCubicG F64.ofInt h iy v
+def interpCubic (offset scale : F64) (fx fy : F64) (t : List F64) : F64 := interpCubicG offset scale fx fy t
 
 def concrete (f : File) (cubic : Bool) : Env F64 (List F64) :=
   { H := ⟨f.w, f.h⟩, pix := f.pix,
@@ -179,30 +202,165 @@ inductive Window where
   | invalid                       -- limits not finite / latitude out of range: `GeographicErr`
   | set (xoff yoff xsize ysize : Int)
 
-def cacheWindow (f : File) (cubic : Bool) (south west north east : F64) : Window :=
-  if F64.gt south north then .clear else
-  let south := MathF.latFix south
-  let north := MathF.latFix north
+/-- the integer part of `CacheArea`: from the four floors `⌊west·rlonres⌋`, `⌊east·rlonres⌋`, `⌊−north·rlatres⌋`,
+    `⌊−south·rlatres⌋` to `(xoffset, yoffset, xsize, ysize)` -/
+def windowOfIdx (w h : Int) (cubic : Bool) (iw ie in0 is0 : Int) : Int × Int × Int × Int :=
+  let inn := max 0 (min (h - 2) (in0 + (h - 1) / 2))
+  let is := max 0 (min (h - 2) (is0 + (h - 1) / 2)) + 1
+  let ie := ie + 1
+  let inn := if cubic then inn - 1 else inn
+  let is := if cubic then is + 1 else is
+  let iw := if cubic then iw - 1 else iw
+  let ie := if cubic then ie + 1 else ie
+  let sh := if iw < 0 then w else if iw ≥ w then -w else 0
+  let xo := if ie - iw ≥ w - 1 then 0 else iw + sh
+  let xe := if ie - iw ≥ w - 1 then w - 1 else ie + sh
+  (xo, inn, xe - xo + 1, is - inn + 1)
+
+/-- `east` after `if (east <= west) east += 360` -/
+def eastOf (west east : F64) : F64 := if F64.le east west then east + F64.ofInt Gen.MathC.td else east
+
+/-- the four floors of `CacheArea` after `LatFix` / `AngNormalize` / `east += 360`:
+    `(⌊west·rlonres⌋, ⌊east·rlonres⌋, ⌊−north·rlatres⌋, ⌊−south·rlatres⌋)` -/
+def cacheFloors (f : File) (south west north east : F64) : Int × Int × Int × Int :=
   let west := MathF.angNormalize west
-  let east := MathF.angNormalize east
-  let east := if F64.le east west then east + F64.ofInt Gen.MathC.td else east
-  if !(south.isFinite && north.isFinite && west.isFinite && east.isFinite) then .invalid else
+  let east := eastOf west (MathF.angNormalize east)
   let rlonres := F64.ofInt f.w / F64.ofInt Gen.MathC.td
   let rlatres := F64.ofInt (f.h - 1) / F64.ofInt Gen.MathC.hd
-  let iw := fl (west * rlonres)
-  let ie := fl (east * rlonres)
-  let inn := fl (F64.neg north * rlatres) + (f.h - 1) / 2
-  let is := fl (F64.neg south * rlatres) + (f.h - 1) / 2
-  let inn := max 0 (min (f.h - 2) inn)
-  let is := max 0 (min (f.h - 2) is)
-  let is := is + 1
-  let ie := ie + 1
-  let (inn, is, iw, ie) := if cubic then (inn - 1, is + 1, iw - 1, ie + 1) else (inn, is, iw, ie)
-  let (iw, ie) :=
-    if ie - iw ≥ f.w - 1 then (0, f.w - 1)
-    else
-      let sh := if iw < 0 then f.w else if iw ≥ f.w then -f.w else 0
-      (iw + sh, ie + sh)
-  .set iw inn (ie - iw + 1) (is - inn + 1)
+  (fl (west * rlonres), fl (east * rlonres), fl (F64.neg (MathF.latFix north) * rlatres), fl (F64.neg (MathF.latFix south) * rlatres))
+
+def cacheWindow (f : File) (cubic : Bool) (south west north east : F64) : Window :=
+  if F64.gt south north then .clear else
+  if !((MathF.latFix south).isFinite && (MathF.latFix north).isFinite && (MathF.angNormalize west).isFinite &&
+      (eastOf (MathF.angNormalize west) (MathF.angNormalize east)).isFinite) then .invalid else
+  let q := cacheFloors f south west north east
+  let p := windowOfIdx f.w f.h cubic q.1 q.2.1 q.2.2.1 q.2.2.2
+  .set p.1 p.2.1 p.2.2.1 p.2.2.2
+
+/-! ## the values of type `int` the code computes (finding F73: they must not overflow)
+
+Hand transcription of every `int` subexpression of `Geoid::height`, `Geoid::rawval`, `Geoid::CacheArea` and the cache
+inspectors, as functions of the floors / indices they start from.  `Props.C20.accepted_int_arithmetic` shows that for every
+accepted raster (dimensions ≤ 2^30) all of them lie in the range of `int`; the driver evaluates `intsOK` on them for every
+query and every `CacheArea` of a run. -/
+
+def intsOK (l : List Int) : Bool := l.all fun x => decide (-(2 : Int) ^ 31 ≤ x) && decide (x ≤ (2 : Int) ^ 31 - 1)
+
+/-- `Geoid::height`: from `int(floor(fx))`, `int(floor(fy))` to the cell `(ix, iy)` and the stencil arguments of `rawval` -/
+def heightInts (w h flx fly : Int) : List Int :=
+  let hh2 := (h - 1) / 2
+  let iy0 := max (-hh2) (min (hh2 - 1) fly)
+  let sh := if flx < 0 then w else if flx ≥ w then -w else 0
+  let ix := flx + sh
+  let iy := iy0 + hh2
+  [flx, fly, h - 1, hh2, hh2 - 1, min (hh2 - 1) fly, -(h - 1), -hh2, iy0, iy, -w, sh, ix, h - 2,
+   ix - 1, ix + 1, ix + 2, iy - 1, iy + 1, iy + 2]
+
+/-- `Geoid::rawval(ix0, iy)` with the cache window `(xoff, yoff, xsize, ysize)` -/
+def rawvalInts (w h xoff yoff xsize ysize ix0 iy : Int) : List Int :=
+  let ix := if ix0 < 0 then ix0 + w else if ix0 ≥ w then ix0 - w else ix0
+  let t := (if ix < w / 2 then 1 else -1) * w
+  [ix, yoff + ysize, xoff + xsize, ix + w, iy - yoff, ix - xoff, ix + w - xoff,
+   -iy, h - 1, 2 * (h - 1), 2 * (h - 1) - iy, w / 2, t, t / 2, ix + t / 2]
+
+/-- `Geoid::CacheArea`: from the four floors to `_xoffset, _yoffset, _xsize, _ysize` -/
+def cacheAreaInts (w h : Int) (cubic : Bool) (iw0 ie0 in0 is0 : Int) : List Int :=
+  let hh2 := (h - 1) / 2
+  let in1 := in0 + hh2
+  let is1 := is0 + hh2
+  let in2 := max 0 (min (h - 2) in1)
+  let is2 := max 0 (min (h - 2) is1)
+  let c : Int := if cubic then 1 else 0
+  let in4 := in2 - c
+  let is4 := is2 + 1 + c
+  let iw4 := iw0 - c
+  let ie4 := ie0 + 1 + c
+  let sh := if iw4 < 0 then w else if iw4 ≥ w then -w else 0
+  let full := ie4 - iw4 ≥ w - 1
+  [iw0, ie0, in0, is0, h - 1, hh2, in1, is1, h - 2, min (h - 2) in1, in2, min (h - 2) is1, is2, is2 + 1, ie0 + 1, in4, is4, iw4, ie4,
+   ie4 - iw4, w - 1, -w, sh, (if full then w - 1 else ie4 + sh), (if full then 0 else iw4 + sh),
+   (if full then w - 1 - 0 + 1 else ie4 + sh - (iw4 + sh) + 1), (if full then w - 1 - 0 else ie4 + sh - (iw4 + sh)), is4 - in4, is4 - in4 + 1,
+   -- the results, as the executed `windowOfIdx` computes them
+   (windowOfIdx w h cubic iw0 ie0 in0 is0).1, (windowOfIdx w h cubic iw0 ie0 in0 is0).2.1,
+   (windowOfIdx w h cubic iw0 ie0 in0 is0).2.2.1, (windowOfIdx w h cubic iw0 ie0 in0 is0).2.2.2]
+
+/-- the loop of `CacheArea` that fills cache row `iy` (`yoff ≤ iy < yoff + ysize`) -/
+def fillInts (w h xoff yoff xsize iy : Int) : List Int :=
+  let beyond := iy < 0 ∨ iy ≥ h
+  let iy1 := if beyond then (if iy < 0 then -iy else 2 * (h - 1) - iy) else iy
+  let iw1a := if beyond then xoff + w / 2 else xoff
+  let iw1 := if beyond ∧ iw1a ≥ w then iw1a - w else iw1a
+  let xs1 := min (w - iw1) xsize
+  [iy, -iy, h - 1, 2 * (h - 1), 2 * (h - 1) - iy, iy1, w / 2, iw1a, iw1a - w, iw1, w - iw1, xs1, iy - yoff, xsize - xs1, iy + 1]
+
+/-- `CacheWest/East/North/South` -/
+def getterInts (w xoff yoff xsize ysize : Int) (cubic : Bool) : List Int :=
+  let c : Int := if cubic then 1 else 0
+  let a := xoff + (if xsize = w then 0 else c) + w / 2
+  [w / 2, xoff + (if xsize = w then 0 else c), a, a % w, a % w - w / 2, 2 * c, 1 + 2 * c, xsize - (if xsize = w then 0 else 1 + 2 * c),
+   yoff + c, yoff + ysize, yoff + ysize - 1, yoff + ysize - 1 - c]
+
+/-! ## the public operations: `operator()`, `CacheArea`, `CacheAll`, `CacheClear` on the binary64 instance -/
+
+inductive ApiOp where
+  | height (lat lon : F64)
+  | cacheArea (south west north east : F64)
+  | cacheAll
+  | cacheClear
+
+/-- `CacheArea(south, west, north, east)` on a state: the window computed in floating point, then the cache fill
+    (`GeographicErr` for invalid limits and on a thread-safe object: the state is unchanged) -/
+def apiCacheArea (f : File) (cubic : Bool) (s : St (List F64)) (south west north east : F64) : St (List F64) :=
+  match cacheWindow f cubic south west north east with
+  | .clear => (step (concrete f cubic) s .cacheClear).1
+  | .invalid => s
+  | .set xo yo xs ys => (step (concrete f cubic) s (.cacheSet xo yo xs ys)).1
+
+def apiStep (f : File) (cubic : Bool) (s : St (List F64)) : ApiOp → St (List F64) × Option F64
+  | .height lat lon => step (concrete f cubic) s (.height lat lon)
+  | .cacheArea so we no ea => (apiCacheArea f cubic s so we no ea, none)
+  | .cacheAll => (apiCacheArea f cubic s (F64.ofInt (-Gen.MathC.qd)) 0 (F64.ofInt Gen.MathC.qd) (F64.ofInt Gen.MathC.td), none)
+  | .cacheClear => ((step (concrete f cubic) s .cacheClear).1, none)
+
+/-- run a history of public operations, collecting the heights -/
+def apiRun (f : File) (cubic : Bool) : St (List F64) → List ApiOp → List F64
+  | _, [] => []
+  | s, op :: ops =>
+    match (apiStep f cubic s op).2 with
+    | some v => v :: apiRun f cubic (apiStep f cubic s op).1 ops
+    | none => apiRun f cubic (apiStep f cubic s op).1 ops
+
+/-- the state of a thread-safe object: the whole raster cached, then frozen -/
+def threadsafeSt (f : File) (cubic : Bool) : St (List F64) :=
+  { (apiStep f cubic (initSt f) .cacheAll).1 with threadsafe := true }
+
+/-! ## inspector functions of the cache and `ConvertHeight` -/
+
+def rlonresF (f : File) : F64 := F64.ofInt f.w / F64.ofInt Gen.MathC.td
+def rlatresF (f : File) : F64 := F64.ofInt (f.h - 1) / F64.ofInt Gen.MathC.hd
+
+/-- `Geoid::CacheWest()`: `((_xoffset + (_xsize == _width ? 0 : _cubic) + _width/2) % _width - _width/2) / _rlonres` -/
+def cacheWest {C : Type} (f : File) (cubic : Bool) (s : St C) : F64 :=
+  if s.cache then
+    F64.ofInt ((s.xoff + (if s.xsize = f.w then 0 else if cubic then 1 else 0) + f.w / 2) % f.w - f.w / 2) / rlonresF f
+  else 0
+
+/-- `Geoid::CacheEast()` -/
+def cacheEast {C : Type} (f : File) (cubic : Bool) (s : St C) : F64 :=
+  if s.cache then
+    cacheWest f cubic s + F64.ofInt (s.xsize - (if s.xsize = f.w then 0 else 1 + 2 * (if cubic then 1 else 0))) / rlonresF f
+  else 0
+
+/-- `Geoid::CacheNorth()` -/
+def cacheNorth {C : Type} (f : File) (cubic : Bool) (s : St C) : F64 :=
+  if s.cache then F64.ofInt Gen.MathC.qd - F64.ofInt (s.yoff + (if cubic then 1 else 0)) / rlatresF f else 0
+
+/-- `Geoid::CacheSouth()` -/
+def cacheSouth {C : Type} (f : File) (cubic : Bool) (s : St C) : F64 :=
+  if s.cache then F64.ofInt Gen.MathC.qd - F64.ofInt (s.yoff + s.ysize - 1 - (if cubic then 1 else 0)) / rlatresF f else 0
+
+/-- `Geoid::ConvertHeight(lat, lon, h, d) = h + real(d) * height(lat, lon)`, `d = ±1` (generic in the number type) -/
+def convertHeightG {R : Type} [Add R] [Mul R] (h d N : R) : R := h + d * N
+def convertHeight (h : F64) (d : Int) (N : F64) : F64 := convertHeightG h (F64.ofInt d) N
 
 end GeoVerif.Geoid
